@@ -206,8 +206,11 @@ class NumpyShim:
         return Vec([x if isinstance(x, Q) else Q(x) for x in seq])
 
     @staticmethod
-    def isclose(a, b):
-        return bool(_q(a) == _q(b))
+    def isclose(a, b, rtol=1e-05, atol=1e-08):
+        # numpy's meaning (a tolerance band), not equality: code that prints Eq this way is wrong
+        # inside the band, and the shim must say so
+        a, b = _q(a), _q(b)
+        return bool(abs(a - b) <= atol + rtol * abs(b))
 
 
 class JaxShim:
